@@ -50,7 +50,16 @@ Inductive unframed : Type :=
 | UfRange                (* prefix parsed, length exceeds the buffer *)
 | UfNoPrefix.            (* peek returned None *)
 
-Definition unframe (pt : bytes) : M unframed :=
+Fixpoint bytes_eqb_v (a b : bytes) : bool :=
+  match a, b with
+  | [], [] => true
+  | x :: a', y :: b' => (x =? y) && bytes_eqb_v a' b'
+  | _, _ => false
+  end.
+
+(* `canon`: time-lock decryption additionally requires the canonical encoding of the length
+   (Uint::from(len).to_vec() == plaintext[..overhead]); signcryption does not. *)
+Definition unframe (canon : bool) (pt : bytes) : M unframed :=
   match peek pt with
   | None => Val UfNoPrefix
   | Some overhead =>
@@ -58,7 +67,8 @@ Definition unframe (pt : bytes) : M unframed :=
     | None => Panic
     | Some x =>
       let len := x mod USIZE in
-      if len <=? N.of_nat (length pt - overhead)
+      if (len <=? N.of_nat (length pt - overhead))
+         && (negb canon || bytes_eqb_v (varint_enc len) (firstn overhead pt))
       then Val (UfMsg (firstn (N.to_nat len) (skipn overhead pt)))
       else Val UfRange
     end
